@@ -89,7 +89,7 @@ def run_parser_tie(res, timeout=240):
         if gone:
             return broken("lemma TP_%s_parseFrom_eq has no translated method %s.parseFrom any more" % (gone[0], gone[0]),
                           {"missing_methods": gone})
-        targets = ["theories/Dbc/Ast.vo", "theories/Dbc/Scanner.vo", "theories/Dbc/DecFloat.vo", "theories/Dbc/Parser.vo"]
+        targets = ["theories/Dbc/Ast.vo", "theories/Dbc/Scanner.vo", "theories/Dbc/DecFloat.vo", "theories/Dbc/Parser.vo", "theories/Dbc/Totality.vo"]
         rc, mk = vlib.sh(["bash", "-c", "ulimit -v %d; exec %s %s" % (
             translate_tie.COQ_MEM_KB, os.path.join(vlib.ROOT, "tools", "coqmake.sh"), " ".join(targets))], timeout=3400)
         if rc != 0:
